@@ -963,7 +963,9 @@ def _g3(ctx: Context) -> None:
             n = cfg.nodes[nid]
             for c in ctx.calls(n):
                 if isinstance(c.func, ast.Attribute) and c.func.attr == "extend" and c.args:
-                    t = strip_sites(T.of(cfg, n, c.args[0]))
+                    from ._pairing import get_as_item
+
+                    t = get_as_item(strip_sites(T.of(cfg, n, c.args[0])))  # decoded.get(k) behind a presence test is decoded[k]
                     if t[0] == "sub" and t[2] == ("const", k):
                         out.append((n, c))
         return out
